@@ -61,30 +61,41 @@ def stepOfJson (j : Json) : Except String StepDef := do
           | .bytes _ | .tuple _ | .obj _ => throw "name not expressible in yaml"
           | w => pure (none, some w)
       | .error _ => pure (none, none)
-    let inArgs ← match j.getObjVal? "in" with
-      | .ok .null => pure none
-      | .ok a => do
-          let prs ← (← a.getArr?).toList.mapM fun p => match p with
+    -- `in`: a list of pairs (a mapping with string keys), null, or `{"bad": Val}`: something that is no mapping
+    let (inArgs, inBad) ← match j.getObjVal? "in" with
+      | .ok .null => pure (none, none)
+      | .ok (.arr a) => do
+          let prs ← a.toList.mapM fun p => match p with
             | .arr #[.str k, v] => do pure (k, ← Val.ofJson v)
             | _ => throw "bad in pair"
-          pure (some prs)
-      | .error _ => pure none
+          pure (some prs, none)
+      | .ok o => do
+          match ← Val.ofJson (← o.getObjVal? "bad") with
+          | .str t => if t == "" then pure (some [], none) else pure (none, some (Val.str t))
+          | .int i => pure (none, some (Val.int i))
+          | .flt n k => pure (none, some (Val.flt n k))
+          | .bool b => pure (none, some (Val.bool b))
+          | _ => throw "`in` outside the modelled shapes"
+      | .error _ => pure (none, none)
+    -- `while_definition = step.get('while'); if while_definition: WhileDecorator(...)`: a falsy value - null,
+    -- an empty mapping `{}`, 0, '' - declares nothing; a truthy value that is no mapping is `{"bad": Val}`
+    let isEmptyObj (w : Json) : Bool := match w with | .obj kvs => kvs.isEmpty | _ => false
     let (wcfg, wbad) ← match j.getObjVal? "while" with
       | .ok w => match w.getObjVal? "bad" with
-        | .ok _ => pure (none, true)
-        | .error _ => do pure (some (← whileOfJson w), false)
+        | .ok b => do pure (none, (← Val.ofJson b).truthy)
+        | .error _ => if isEmptyObj w then pure (none, false) else do pure (some (← whileOfJson w), false)
       | .error _ => pure (none, false)
     let (rcfg, rbad) ← match j.getObjVal? "retry" with
       | .ok w => match w.getObjVal? "bad" with
-        | .ok _ => pure (none, true)
-        | .error _ => do pure (some (← retryOfJson w), false)
+        | .ok b => do pure (none, (← Val.ofJson b).truthy)
+        | .error _ => if isEmptyObj w then pure (none, false) else do pure (some (← retryOfJson w), false)
       | .error _ => pure (none, false)
     -- the wire carries the 1-based position the renderer recorded; ruamel's `lc` is 0-based
     let lc : Option (Nat × Nat) ← match ← optNat j "line", ← optNat j "col" with
       | some l, some c => if l == 0 || c == 0 then throw "line/col are 1-based" else pure (some (l - 1, c - 1))
       | none, none => pure none
       | _, _ => throw "line and col go together"
-    pure { name, rawName, simple := false, inArgs,
+    pure { name, rawName, simple := false, inArgs, inBad,
            run := ← getD j "run" (.bool true), skip := ← getD j "skip" (.bool false),
            swallow := ← getD j "swallow" (.bool false), foreach := ← optVal j "foreach",
            while_ := wcfg, whileBad := wbad, retry := rcfg, retryBad := rbad,
@@ -160,10 +171,14 @@ def handle (op : String) (j : Json) : Except String Json := do
     let parseArgs : Option Bool := match run.getObjVal? "parse_args" with
       | .ok (.bool b) => some b
       | _ => none
-    let groups : Option (List String) ← match run.getObjVal? "groups" with
-      | .ok .null => pure none
-      | .ok a => do pure (some (← strArr a))
-      | .error _ => pure none
+    -- `groups`: a list of names; a string is iterated character by character; a truthy number cannot be iterated
+    let (groups, groupsBad) : Option (List String) × Bool ← match run.getObjVal? "groups" with
+      | .ok .null => pure (none, false)
+      | .ok (.str t) => pure (some (t.toList.map fun c => String.singleton c), false)
+      | .ok (.bool b) => pure (none, b)
+      | .ok (.num n) => pure (none, n.mantissa != 0)
+      | .ok a => do pure (some (← strArr a), false)
+      | .error _ => pure (none, false)
     let success ← optStrField run "success"
     let failure ← optStrField run "failure"
     let rnd ← match j.getObjVal? "rnd" with
@@ -177,8 +192,12 @@ def handle (op : String) (j : Json) : Except String Json := do
     let parseInput := match parseArgs with
       | some b => b
       | none => !(argsEmpty && dictIn.isSome)
-    let pi : PipeInst := { name, groups, success, failure, parseInput, contextArgs := argsIn }
-    let s0 : St := { ctx := dictIn.getD [], rnd }
+    let pi : PipeInst := { name, groups, success, failure, parseInput, contextArgs := argsIn, groupsBad }
+    -- `config.default_backoff` as it stands while the run executes (set after start-up by a config file or the API)
+    let defaultBackoff := match run.getObjVal? "default_backoff" with
+      | .ok (.str b) => b
+      | _ => "fixed"
+    let s0 : St := { ctx := dictIn.getD [], rnd, defaultBackoff }
     let (s1, r) := runRoot fuel ⟨pipes⟩ pi s0
     if s1.ood || hasOutOfDomain s1 r then throw "out of domain"
     pure (Json.mkObj [("trace", Json.arr (s1.trace.map eventToJson).toArray),
